@@ -3,6 +3,8 @@ package main
 import (
 	"fmt"
 	"strings"
+
+	textwire "github.com/textwire/textwire/v2"
 )
 
 // C13 — errors name the line (and file) of the offending construct.
@@ -117,6 +119,11 @@ func c13Check(cs c13Case) (ok bool, sig, expected, observed string) {
 			t.Files["index.tw"] = `@use("lay")` + "\n@insert(\"a\")\n" + src + "@end"
 			line += 2
 			wantPath = t.abs("index.tw")
+		case 6:
+			// the fault sits in a slot body that the page passes to a component
+			t.Files["comp.tw"] = "<c>\n\n\n@slot</c>"
+			t.Files["index.tw"] = src[:strings.Index(src, f.src)] + `@component("comp")@slot ` + f.src + "@end@end\ntail"
+			wantPath = t.abs("index.tw")
 		case 5:
 			// the fault is the expression argument of an insert of a page that uses a layout
 			expr := strings.TrimSuffix(strings.TrimPrefix(f.src, "{{ "), " }}")
@@ -132,6 +139,9 @@ func c13Check(cs c13Case) (ok bool, sig, expected, observed string) {
 		if lo.Kind != KOut {
 			o = lo
 		} else {
+			// other entry points used in between must not change what the error names
+			textwire.EvaluateString("between {{ 1 }}", nil)
+			textwire.EvaluateFile(t.abs("other.tw"), nil)
 			o = render(tpl, "index", nil)
 		}
 	}
@@ -140,7 +150,7 @@ func c13Check(cs c13Case) (ok bool, sig, expected, observed string) {
 		expected += " and path " + wantPath
 	}
 	expected += " for " + f.name + " in " + strconvQuote(src)
-	where := []string{"string", "page", "layout", "component", "page-with-layout", "insert-argument"}[cs.Where]
+	where := []string{"string", "page", "layout", "component", "page-with-layout", "insert-argument", "slot-body"}[cs.Where]
 	if o.Kind == KPanic || o.Kind == KHang {
 		return false, o.Kind + "@" + o.Site, expected, o.String()
 	}
@@ -179,7 +189,10 @@ func c13Run(c *Ctx) {
 			pre := append([]int{}, idx...)
 			for fi, f := range c13Faults {
 				for wrap := 0; wrap < 4; wrap++ {
-					for where := 0; where < 6; where++ {
+					for where := 0; where < 7; where++ {
+						if where == 6 && (wrap != 0 || f.load || f.tree != "" || f.extra != 0) {
+							continue
+						}
 						if where == 5 && (wrap != 0 || f.load || !strings.HasPrefix(f.src, "{{ ") || f.extra != 0) {
 							continue
 						}
